@@ -126,12 +126,14 @@ class ParameterList:
         """
         param_list = []
         for key, value in self._parameters.items():
-            if type(value) == str:  # Strings are iterable but we treat them as a single value
+            # Strings (str subclasses included) are iterable but we treat them as a single value; so is everything that
+            # is not a real iterable (e.g. an Agent class, whose __getitem__ would otherwise be iterated forever)
+            if isinstance(value, str) or not isinstance(value, Iterable):
                 args = [(key, value)]
             else:
                 try:
                     args = [(key, v) for v in value]
-                except TypeError:
+                except TypeError:  # Claims to be iterable but is not (e.g. a 0-d numpy array)
                     args = [(key, value)]
             param_list.append(args)
         result = [dict(kwargs) for kwargs in itt.product(*param_list)]
